@@ -126,6 +126,7 @@ impl Names {
     pub fn key(&self, k: &KeySpec) -> Vec<u8> {
         match k {
             KeySpec::Lit(b) => b.clone(),
+            KeySpec::Long { byte, len } => vec![*byte; (*len).min(100_000) as usize],
             KeySpec::RootSuffix { idx, cut } => {
                 if self.root_keys.is_empty() {
                     return vec![0xee];
@@ -171,6 +172,7 @@ pub enum CMsg {
     Redelegate { src: String, dst: String, coin: (String, u128) },
     SetWithdraw { to: String },
     Withdraw { validator: String },
+    FundPool { coins: Vec<(String, u128)> },
     Custom { tag: String },
     Ibc { tag: String },
     Gov { n: u64 },
@@ -217,6 +219,7 @@ pub fn resolve_msg(names: &Names, m: &MsgSpec, self_addr: &str, balance: &dyn Fn
         }
         MsgSpec::SetWithdraw { to } => CMsg::SetWithdraw { to: names.target(to, self_addr) },
         MsgSpec::Withdraw { val } => CMsg::Withdraw { validator: names.validator(*val) },
+        MsgSpec::FundPool { coins } => CMsg::FundPool { coins: names.coins(coins, balance) },
         MsgSpec::Custom { tag } => CMsg::Custom { tag: tag.clone() },
         MsgSpec::Ibc { tag } => CMsg::Ibc { tag: tag.clone() },
         MsgSpec::Gov { n } => CMsg::Gov { n: *n },
@@ -290,6 +293,7 @@ pub fn to_cosmos<C: MakeCustom>(m: &CMsg) -> Option<CosmosMsg<C>> {
         .into(),
         CMsg::SetWithdraw { to } => DistributionMsg::SetWithdrawAddress { address: to.clone() }.into(),
         CMsg::Withdraw { validator } => DistributionMsg::WithdrawDelegatorReward { validator: validator.clone() }.into(),
+        CMsg::FundPool { coins } => DistributionMsg::FundCommunityPool { amount: coins.iter().map(|(d, a)| cosmwasm_std::coin(*a, d.clone())).collect() }.into(),
         CMsg::Custom { tag } => CosmosMsg::Custom(C::custom(tag)?),
         CMsg::Ibc { tag } => CosmosMsg::Ibc(IbcMsg::CloseChannel { channel_id: tag.clone() }),
         CMsg::Gov { n } => CosmosMsg::Gov(GovMsg::Vote { proposal_id: *n, option: VoteOption::Yes }),
